@@ -350,6 +350,14 @@ def vec_forms(N, L):
         fs.append(('dot(M,M)', lambda x: algopy.dot(Mx(x), Mx(x) + cmat(N, N).T)))
         fs.append(('dot(V,dot(M,V))', lambda x: algopy.dot(x * cvec(N), algopy.dot(Mx(x), x)) * cvec(2)))
         fs.append(('outer(V,V)', lambda x: algopy.outer(x, x * cvec(N) + 1.0)))
+        # both operands the very same object
+        fs.append(('dot(x,x) same object', lambda x: algopy.dot(x, x) * cvec(2) + x[0]))
+
+        def same_mm(x):
+            M = Mx(x)
+            return algopy.dot(M, M)
+        fs.append(('dot(M,M) same object', same_mm))
+        fs.append(('outer(x,x) same object', lambda x: algopy.outer(x, x) * cmat(N, N)))
         # structure operations with non-default offsets on a non-symmetric polynomial matrix
         Ox = lambda x: algopy.outer(x, x * cvec(N) + 1.0)
         for k in (-2, -1, 1, 2):
